@@ -640,6 +640,9 @@ func c15Run(c *Case) (out string, fails []Fail) {
 	inst, status := c15Load(yamlText, names)
 	ref := newC15Ref(prog, names)
 	if status != "" {
+		if strings.HasPrefix(status, "cfgpanic") {
+			fails = append(fails, Fail{"c15:config-panic", fmt.Sprintf("loading the configuration panics (%s) instead of returning an error: %s", status, c15Compact(yamlText))})
+		}
 		if ref.valid {
 			fails = append(fails, Fail{"c15:valid-config-" + strings.ReplaceAll(status, ":", "-"),
 				fmt.Sprintf("a configuration that is valid by the documentation gives %s: %s", status, c15Compact(yamlText))})
@@ -661,6 +664,10 @@ func c15Run(c *Case) (out string, fails []Fail) {
 		outs = append(outs, c15RenderRec(res, fields, unesc))
 		after := inst.reg.snapshot()
 		// ---- the property's own oracle: the reference interpreter written from the documentation ----
+		if res == 'X' && !ref.valid {
+			// even a configuration the documentation does not cover must not crash on a record once it was accepted
+			addFail("c15:panic", fmt.Sprintf("the transforms panic on a record; record #%d %s; config %s", i, c15RecDesc(r), c15Compact(yamlText)))
+		}
 		if ref.valid && !ref.dead {
 			if sig, desc := ref.check(i, r, res, fields, unesc, before, after); sig != "" {
 				addFail(sig, fmt.Sprintf("%s; record #%d %s; config %s", desc, i, c15RecDesc(r), c15Compact(yamlText)))
